@@ -30,7 +30,7 @@ subprocess.run(["git", "-C", "/repo", "apply", os.path.join(dst, "patch.diff")],
 det = {}
 try:
     for c in checks:
-        r = subprocess.run(["/verif/check", c, "quick"], capture_output=True, text=True)
+        r = subprocess.run(["/verif/check", c, "quick"], capture_output=True, text=True, env=dict(os.environ, VERIF_EVIDENCE_DIR="/verif/target/seeded-evidence"))
         det[c] = {"exit": r.returncode, "violation_lines": len(re.findall(r"^VIOLATION", r.stdout, re.M)), "last_line": r.stdout.strip().split("\n")[-1][:300]}
 finally:
     subprocess.run(["git", "-C", "/repo", "checkout", "--", "."], check=True)
